@@ -81,8 +81,7 @@ def int_to_alphabetic(num: int, reference: Optional[str] = None) -> str:
         try:
             alphabet = ALPHABET_CHARACTERS[reference]
         except KeyError:
-            msg = "formatting for language {!r} is not supported"
-            raise NotImplementedError(msg.format(reference))
+            alphabet = ALPHABET_CHARACTERS[None]  # language not supported, use the default
 
     elif reference.isdigit():
         for alphabet in OTHER_NUMBERS:
